@@ -48,15 +48,28 @@ pub fn run(ctx: &Ctx) -> (Report, Meta) {
     for &m in EXPLICIT.iter() {
         let q = dense_order(m);
         let mname_ = mname(m);
-        for (vi, &(x0, h, step, clip)) in variants().iter().enumerate() {
+        // every variant with dense output on; for RK4, RK23 and DOPRI5 five more with dense output off and an interpolant
+        // asked for on demand (XOut at the initial callback, due in the extracted step): the weights must be the same
+        let mut vlist: Vec<(f64, f64, usize, Option<f64>, bool)> = variants().iter().map(|&(a, b, c, d)| (a, b, c, d, false)).collect();
+        if m != Method::DOP853 {
+            // (forward only: going backward the solvers' test `xo <= x` hands interpolants over before xo is reached and none after —
+            // XOut is undocumented and no property states when an interpolant is due, so nothing is demanded there)
+            for &(a, b, c, d) in &[(0.0, 1.0, 1usize, None), (0.0, 1.0, 2, None), (3.0, 0.5, 2, None), (3.0, 0.5, 3, None), (-1.0, 0.25, 4, None)] {
+                vlist.push((a, b, c, d, true));
+            }
+        }
+        for (vi, &(x0, h, step, clip, on_demand)) in vlist.iter().enumerate() {
             let case_id = format!("dense_extract/{}/{}", mname_, vi);
             if !ctx.want(&case_id) {
                 continue;
             }
-            let vdesc = json!({"method": mname_, "x0": x0, "h": h, "step_index": step, "clipped_to": clip});
-            let cls = format!("{}{}{}", if step > 1 { "later_step" } else { "first_step" }, if h < 0.0 { "_backward" } else { "" }, if clip.is_some() { "_clipped" } else { "" });
+            let vdesc = json!({"method": mname_, "x0": x0, "h": h, "step_index": step, "clipped_to": clip, "interpolant_on_demand": on_demand});
+            let cls = format!("{}{}{}", if step > 1 { "later_step" } else { "first_step" }, if h < 0.0 { "_backward" } else { "" }, if clip.is_some() { "_clipped" } else { "" }) + if on_demand { "_on_demand" } else { "" };
             rep.eval();
-            let t = match std::panic::catch_unwind(|| extract(m, x0, h, step, clip, &thetas)) {
+            if on_demand {
+                rep.count("dense_variants_on_demand", 1);
+            }
+            let t = match std::panic::catch_unwind(|| extract_full(m, x0, h, step, clip, &thetas, false, on_demand)) {
                 Ok(Ok(t)) => t,
                 Ok(Err(e)) => {
                     rep.violate(&format!("C07/dense_extraction/{}/{}", mname_, cls), e, &case_id, vdesc);
